@@ -287,12 +287,14 @@ theorem keyOwnedLoop_gone (k : Key) (uid : Nat) : ∀ (l : List IP) (s : State),
       · exact ih s hv hf hg
       · split
         · exact ih s hv hf hg
-        · have hrun := podRunning_gone s k r.uid hv hf hg
-          have pq := (podRunning_quiet Facts.good s k.pod k.ns r.uid).1
-          rw [hrun]
-          simp only [Bool.false_eq_true, if_false]
-          exact ih _ (by rw [pq.frame.vPods, pq.frame.pods]; exact hv) (by rw [pq.frame.fault]; exact hf)
-            (podGone_of_quiet pq k hg)
+        · split
+          · exact ih s hv hf hg
+          · have hrun := podRunning_gone s k r.uid hv hf hg
+            have pq := (podRunning_quiet Facts.good s k.pod k.ns r.uid).1
+            rw [hrun]
+            simp only [Bool.false_eq_true, if_false]
+            exact ih _ (by rw [pq.frame.vPods, pq.frame.pods]; exact hv) (by rw [pq.frame.fault]; exact hf)
+              (podGone_of_quiet pq k hg)
 
 theorem keyOwned_gone (s : State) (k : Key) (uid : Nat) (hv : s.vPods = s.pods) (hf : s.fault = 0) (hg : podGone s k) :
     (keyOwnedByRunningPod Facts.good s k uid).2 = false := by
